@@ -82,6 +82,63 @@ def _dominated_by_depth_guard(f, site_bb):
     return False
 
 
+def flow_depth_bound(F):
+    """(ok, description): increase_flow_level advances flow_level only (A) with the result of checked_add whose None case is an error, or
+    (B) behind an ordering comparison (not an equality) of an expression mentioning flow_level against a constant, whose other edge
+    reaches only Err"""
+    inc = F.fn(SCANNER + "::increase_flow_level")
+    ws = [w for w in cfg.field_writes(inc, SCANNER, "flow_level") if w["kind"] == "assign"]
+    if not ws:
+        return False, "flow_level is not written by increase_flow_level"
+    errs = cfg.err_sink_blocks(inc)
+    rets = cfg.return_blocks(inc)
+    how = []
+    for w in ws:
+        e = cfg.expr_operand(inc, w["stmt"]["rv"]["a"], 12) if w["stmt"]["rv"]["k"] == "use" else ("?",)
+        s = cfg.expr_str(e)
+        if "checked_add" in s and "Add" not in s.replace("checked_add", ""):
+            okq = False
+            for bi, b in enumerate(inc.blocks):
+                t = b["term"]
+                if b["cleanup"] or t["k"] != "switch":
+                    continue
+                de = cfg.expr_operand(inc, t["discr"], 12)
+                if de[0] == "discr" and "checked_add" in cfg.expr_str(de):
+                    m, other = cfg.switch_edge_blocks(inc, bi)
+                    tg = m.get(1, other)
+                    esc = cfg.flag_reach(inc, tg, rets, avoid=errs) if tg not in errs else None
+                    okq = esc is None
+            if not okq:
+                return False, "checked_add result used without turning None into an error"
+            how.append("checked_add")
+            continue
+        guarded = False
+        for b2 in inc.dominators().get(w["bb"], ()):
+            t2 = inc.blocks[b2]["term"]
+            if t2["k"] != "switch":
+                continue
+            ce = cfg.expr_operand(inc, t2["discr"], 10)
+            while ce[0] == "un" and ce[1] == "Not":
+                ce = ce[2]
+            if ce[0] != "bin" or ce[1] not in ("Lt", "Le", "Gt", "Ge"):
+                continue
+            sides = (cfg.expr_str(ce[2]), cfg.expr_str(ce[3]))
+            if not any("flow_level" in x for x in sides) or not any(ce[i][0] == "const" for i in (2, 3)):
+                continue
+            m, other = cfg.switch_edge_blocks(inc, b2)
+            for good, bad in ((other, m.get(0)), (m.get(0), other)):
+                if good is None or bad is None:
+                    continue
+                if cfg.dominated_by_edge(inc, w["bb"], b2, good):
+                    esc = cfg.flag_reach(inc, bad, rets, avoid=errs) if bad not in errs else None
+                    if esc is None:
+                        guarded = True
+        if not guarded:
+            return False, "flow_level := %s without checked_add and without a dominating ordering comparison against a constant whose other edge is an error" % s[:120]
+        how.append("explicit ordering guard")
+    return True, how
+
+
 def run(tier):
     rep = new_report(tier)
     F = facts.load()
@@ -90,8 +147,8 @@ def run(tier):
     rep.extra["functions_analysed"] = len(F.fns)
     rep.extra["call_edges"] = sum(len(v) for v in edges.values())
     rep.extra["cycles"] = [[short(x) for x in c] for c in comps]
-    rep.floor("functions in the call graph", len(F.fns), 700)
-    rep.floor("call edges", rep.extra["call_edges"], 900)
+    rep.floor("functions in the call graph", len(F.fns), 500)
+    rep.floor("call edges", rep.extra["call_edges"], 700)
 
     # R1: every call cycle is guarded or a finding
     for comp in comps:
@@ -170,38 +227,10 @@ def run(tier):
     for k in sorted(writers):
         rep.check(k in allowed, "flow-level-writer", short(k),
                   "flow_level written outside increase_flow_level/decrease_flow_level/new", site=F.fns[k].span)
-    # the increment is `checked_add` whose None leads to Err
-    chk = [(bb, t) for bb, t, ck, fr in inc.calls() if ck and ck.endswith("::checked_add")]
-    rep.check(len(chk) >= 1, "flow-level-checked-add", "increase_flow_level",
-              "increase_flow_level no longer advances flow_level through checked_add (u8 wrap or unbounded depth)", site=inc.span)
-    ws = writers.get(inc.key, [])
-    plain_add = False
-    for w in ws:
-        if w["kind"] == "assign":
-            src = w["stmt"]["rv"]
-            # value must flow from the checked_add/ok_or_else/? chain, i.e. not from an Add/AddWithOverflow
-            l = is_local(src.get("a", {})) if src["k"] == "use" else None
-            if src["k"] == "bin" or l is None:
-                plain_add = True
-            else:
-                o = cfg.origin(inc, l)
-                if o[0] == "rv" and o[3]["rv"]["k"] == "bin":
-                    plain_add = True
-                if o[0] == "rv" and o[3]["rv"]["k"] == "use":
-                    p = o[3]["rv"]["a"]
-                    fl = cfg.place_fields(p.get("copy") or p.get("move") or {"p": []})
-                    if fl and fl[0] == "0" and o[3]["rv"]["a"].get("copy", o[3]["rv"]["a"].get("move"))["l"] is not None:
-                        # tuple field .0 of an AddWithOverflow result
-                        base = (p.get("copy") or p.get("move"))["l"]
-                        ob = cfg.origin(inc, base)
-                        if ob[0] == "rv" and ob[3]["rv"]["k"] == "bin":
-                            plain_add = True
-    rep.check(not plain_add and len(ws) >= 1, "flow-level-increment", "increase_flow_level",
-              "flow_level is incremented by plain arithmetic instead of the checked_add result", site=inc.span)
-    # flow_level is a u8
-    fl_ty = [fld["ty"] for v in F.adt(SCANNER)["variants"] for fld in v["fields"] if fld["name"] == "flow_level"]
-    rep.check(fl_ty == ["u8"], "flow-level-type", "Scanner.flow_level",
-              "flow_level is no longer a u8 (the nesting bound is the counter's range)", detail=fl_ty)
+    ok_bound, how = flow_depth_bound(F)
+    rep.check(ok_bound, "flow-level-bounded", "increase_flow_level",
+              "the flow nesting counter is no longer advanced under a sound bound (checked_add with None => Err, or an ordering comparison against a "
+              "constant whose failing edge is an error): flow nesting, and with it every recursion that follows it, is unbounded", site=inc.span, detail=how)
     # every function that pushes FlowSequenceStart/FlowMappingStart (fetch_flow_collection_start) calls increase_flow_level with `?`
     fcs = F.fn(SCANNER + "::fetch_flow_collection_start")
     has = any(ck == inc.key for _, _, ck, _ in fcs.calls())
